@@ -1,43 +1,21 @@
 ------------------------------ MODULE TdmsData ------------------------------
 (***************************************************************************)
-(* Getting data out of a lazily opened file (DESIGN.md 3.4): C04, C19,     *)
-(* and the vocabulary reused by C03/C05.                                   *)
-(*                                                                         *)
-(* A SHAPE describes how the channel under test X is spread over the file: *)
-(* per segment whether X has data there, its values per chunk n, the       *)
-(* number of chunks k and the number of X values in the final chunk        *)
-(* (last < n only for a truncated last segment).  The channel's data is    *)
-(* the token sequence 0..L-1 in file order.                                *)
-(*                                                                         *)
-(* For every operation there is                                            *)
-(*   - an ABSTRACT RESULT written from Python/NumPy's indexing semantics,   *)
-(*   - an ALGORITHM MODEL mirroring TdmsReader.read_raw_data_for_channel,  *)
-(*     read_channel_chunk_for_index and TdmsChannel._read_slice step by    *)
-(*     step, and                                                           *)
-(*   - a FOOTPRINT (which chunks may be fetched).                          *)
-(* TLC checks algorithm = abstract for all shapes and requests; the        *)
-(* implementation is bound to the abstract results (GEN) and to the        *)
-(* footprint (TRACE, module Trace_Footprint).                              *)
+(* Behaviour over TdmsDataOps: choose a shape, then one request; TLC       *)
+(* checks the algorithm models against the abstract results for every      *)
+(* (shape, request) and prints one GEN case per shape.  C04, C19.          *)
 (***************************************************************************)
-EXTENDS Integers, Sequences, FiniteSets, TLC, Json
+EXTENDS TdmsDataOps
 
 CONSTANTS
   MaxSegs, NVals, KVals,
   Trunc,        \* TRUE: the last segment may have a truncated final chunk
   Extra,        \* offsets / lengths / slice bounds range up to L + Extra
-  Steps,        \* slice steps explored (non-zero integers) ; 0 is always explored as the error case
+  Steps,        \* slice steps explored (non-zero integers) ; 0 and None are always explored
   MaxSliceLen,  \* slices are explored for channels of at most this length
-  StaleIndex,   \* TRUE models the pinned reader.py (segment_index not advanced when the channel is absent): defect D3
-  ExactFinalChunk, \* FALSE models the pinned guess of the final chunk's size from the value count (over-fetch when
-                \* the truncated final chunk holds no value of the channel: defect D16); TRUE: the recorded size
-  ZeroLenSlice, \* TRUE models the pinned _read_slice on zero-length channels: defect D10
   GenPrint
 
 VARIABLES shape, req
 vars == <<shape, req>>
-
-NoneV == -1000          \* Python's None for offsets / lengths / slice fields
-Bad == -1               \* a value that is not a token of the channel (invented / garbage data)
 
 (* ------------------------------- shapes -------------------------------- *)
 Absent == [pres |-> FALSE, n |-> 0, k |-> 0, last |-> 0]
@@ -51,205 +29,6 @@ Shapes ==
   LET base == SeqsUpTo(FullSegs, MaxSegs) IN
   IF ~Trunc THEN base
   ELSE base \cup {Append(s, t) : s \in SeqsUpTo(FullSegs, MaxSegs - 1), t \in TruncSegs}
-
-Vals(s) == IF s.pres THEN s.n * (s.k - 1) + s.last ELSE 0
-
-RECURSIVE SumVals(_, _)
-SumVals(segs, i) == IF i = 0 THEN 0 ELSE Vals(segs[i]) + SumVals(segs, i - 1)
-TotalLen(segs) == SumVals(segs, Len(segs))
-Base(segs, j) == SumVals(segs, j - 1)             \* token index of the first X value of segment j
-
-Min(a, b) == IF a < b THEN a ELSE b
-Max(a, b) == IF a > b THEN a ELSE b
-Range(a, b) == [i \in 1..Max(0, b - a) |-> a + i - 1]     \* tokens a .. b-1 as a sequence
-
-\* chunks of X in file order: <<segment, chunk index (0-based), first token, count>>
-RECURSIVE ChunkSeq(_, _)
-ChunkSeq(segs, j) ==
-  IF j = 0 THEN <<>>
-  ELSE ChunkSeq(segs, j - 1) \o
-       (IF ~segs[j].pres THEN <<>>
-        ELSE [c \in 1..segs[j].k |-> [seg |-> j, chunk |-> c - 1,
-                                      first |-> Base(segs, j) + (c - 1) * segs[j].n,
-                                      count |-> IF c = segs[j].k THEN segs[j].last ELSE segs[j].n]])
-Chunks(segs) == ChunkSeq(segs, Len(segs))
-
-(* --------------------------- abstract results --------------------------- *)
-\* every result is a record: err = "" and the delivered token sequence, or the name of the exception raised
-R(v) == [err |-> "", vals |-> v]
-E(e) == [err |-> e, vals |-> <<>>]
-\* read_data(offset, length) = full[offset : offset + length]        (offset >= 0, length >= 0 or None)
-AbsWindow(L, off, len) ==
-  LET stop == IF len = NoneV THEN L ELSE Min(L, off + len) IN R(Range(Min(off, L), Max(Min(off, L), stop)))
-
-\* Python's slice.indices(L) followed by range(start, stop, step)
-SliceIndices(L, start, stop, step) ==
-  LET st == IF step = NoneV THEN 1 ELSE step
-      lower == IF st < 0 THEN -1 ELSE 0
-      upper == IF st < 0 THEN L - 1 ELSE L
-      norm(v, dflt) == IF v = NoneV THEN dflt
-                       ELSE IF v < 0 THEN Max(v + L, lower) ELSE Min(v, upper)
-  IN [start |-> norm(start, IF st < 0 THEN upper ELSE lower),
-      stop  |-> norm(stop, IF st < 0 THEN lower ELSE upper),
-      step  |-> st]
-
-RECURSIVE RangeSeq(_, _, _)
-RangeSeq(a, b, st) == IF (st > 0 /\ a >= b) \/ (st < 0 /\ a <= b) THEN <<>> ELSE <<a>> \o RangeSeq(a + st, b, st)
-
-AbsSlice(L, start, stop, step) ==
-  IF step = 0 THEN E("ValueError")
-  ELSE LET ix == SliceIndices(L, start, stop, step) IN R(RangeSeq(ix.start, ix.stop, ix.step))
-
-AbsIndex(L, i) == IF i >= L \/ i < -L THEN E("IndexError") ELSE R(<<IF i < 0 THEN L + i ELSE i>>)
-
-(* ------------------- algorithm model: read_raw_data_for_channel --------- *)
-FirstSeg(segs) == IF \A j \in DOMAIN segs : Vals(segs[j]) = 0 THEN Len(segs) + 1
-                  ELSE CHOOSE j \in DOMAIN segs : Vals(segs[j]) > 0 /\ \A i \in 1..(j - 1) : Vals(segs[i]) = 0
-LastSeg(segs) == IF \A j \in DOMAIN segs : Vals(segs[j]) = 0 THEN Len(segs) + 1
-                 ELSE CHOOSE j \in DOMAIN segs : Vals(segs[j]) > 0 /\ \A i \in (j + 1)..Len(segs) : Vals(segs[i]) = 0
-\* cumulative value count at the end of each segment first..last (_build_index)
-Offs(segs) == LET f == FirstSeg(segs) l == LastSeg(segs) IN
-              IF f > Len(segs) THEN <<>> ELSE [m \in 1..(l - f + 1) |-> SumVals(segs, f + m - 1)]
-
-PySlice(s, a, b) ==        \* s[a:b] with Python's treatment of negative bounds
-  LET n == Len(s)
-      a2 == IF a < 0 THEN Max(0, a + n) ELSE Min(a, n)
-      b2 == IF b < 0 THEN Max(0, b + n) ELSE Min(b, n)
-  IN IF b2 <= a2 THEN <<>> ELSE SubSeq(s, a2 + 1, b2)
-
-\* X's values in chunk c0 (0-based) of segment j; beyond the segment's chunks lies data that is not X's
-ChunkTokens(segs, j, c0) ==
-  LET s == segs[j] IN
-  IF c0 < 0 \/ c0 >= s.k THEN [i \in 1..s.n |-> Bad]
-  ELSE Range(Base(segs, j) + c0 * s.n, Base(segs, j) + c0 * s.n + (IF c0 = s.k - 1 THEN s.last ELSE s.n))
-
-RECURSIVE ConcatChunks(_, _, _, _)
-ConcatChunks(segs, j, c0, nc) == IF nc <= 0 THEN <<>> ELSE ChunkTokens(segs, j, c0) \o ConcatChunks(segs, j, c0 + 1, nc - 1)
-
-\* the per-chunk loop of read_raw_data_for_channel: skip on the first chunk, trim once `length' values were read
-RECURSIVE YieldChunks(_, _, _, _, _)
-YieldChunks(chunks, i, skip0, length, acc) ==      \* acc = [vr |-> values_read, out |-> seq]
-  IF i > Len(chunks) THEN acc
-  ELSE LET ch == chunks[i]
-           skip == IF i = 1 THEN skip0 ELSE 0
-           vr == acc.vr + Len(ch) - skip
-           trim == IF vr < length THEN 0 ELSE vr - length
-           part == IF skip = 0 /\ trim = 0 THEN ch ELSE PySlice(ch, skip, Len(ch) - trim)
-       IN YieldChunks(chunks, i + 1, skip0, length, [vr |-> vr, out |-> acc.out \o part])
-
-RECURSIVE SegLoop(_, _, _, _, _, _, _)
-SegLoop(segs, il, j, jEnd, si, ctx, acc) ==        \* j: actual segment visited; si: the code's segment_index
-  IF j > jEnd \/ acc.err THEN acc
-  ELSE
-  LET s == segs[j] IN
-  IF ~s.pres \/ s.n = 0
-  THEN SegLoop(segs, il, j + 1, jEnd, IF StaleIndex THEN si ELSE si + 1, ctx, acc)           \* `continue'
-  ELSE
-  LET offs == ctx.offs  first == ctx.first  M == Len(offs)
-      startIdxOK == si = first \/ (si - first >= 1 /\ si - first <= M)
-      segStart == IF si = first THEN 0 ELSE offs[si - first]
-      isStart == si = ctx.startSeg
-      isEnd == si = ctx.endSeg
-      toSkip == ctx.off - segStart
-      chunkOffset == IF isStart THEN toSkip \div s.n ELSE 0
-      remSkip == IF isStart THEN toSkip % s.n ELSE 0
-      nc0 == s.k - chunkOffset
-      endIdxOK == ~isEnd \/ (si - first + 1 >= 1 /\ si - first + 1 <= M)
-      segEnd == offs[si - first + 1]
-      toTrim == segEnd - ctx.endIndex
-      fcs0 == (segEnd - segStart) % s.n
-      fcs == IF ExactFinalChunk THEN s.last ELSE IF fcs0 = 0 THEN s.n ELSE fcs0
-      nc == IF ~isEnd THEN nc0
-            ELSE IF toTrim >= fcs THEN (nc0 - 1) - ((toTrim - fcs) \div s.n) ELSE nc0 - (toTrim \div s.n)
-  IN IF ~startIdxOK \/ ~endIdxOK THEN [acc EXCEPT !.err = TRUE]
-     ELSE
-     LET chunks == IF nc <= 0 THEN <<>>
-                   ELSE IF il THEN <<ConcatChunks(segs, j, chunkOffset, nc)>>     \* interleaved: one block
-                   ELSE [c \in 1..nc |-> ChunkTokens(segs, j, chunkOffset + c - 1)]
-         y == YieldChunks(chunks, 1, remSkip, ctx.length, [vr |-> acc.vr, out |-> acc.out])
-         fetched == IF nc <= 0 THEN {} ELSE {<<j, chunkOffset + c - 1>> : c \in 1..nc}
-     IN SegLoop(segs, il, j + 1, jEnd, si + 1, ctx,
-                [vr |-> y.vr, out |-> y.out, err |-> FALSE, fetch |-> acc.fetch \cup fetched,
-                 tags |-> acc.tags])
-
-AlgWindow(segs, il, off, len) ==
-  IF off < 0 \/ (len # NoneV /\ len < 0) THEN [err |-> "ValueError", out |-> <<>>, alloc |-> 0, fetch |-> {}, tags |-> {}]
-  ELSE
-  LET L == TotalLen(segs)
-      maxFrom == L - off
-      length == IF len = NoneV THEN maxFrom ELSE Min(len, maxFrom)
-      endIndex == off + length
-      offs == Offs(segs)
-      first == FirstSeg(segs)
-      startSeg == first + Cardinality({m \in DOMAIN offs : offs[m] <= off})          \* searchsorted side='right'
-      endSeg == first + Cardinality({m \in DOMAIN offs : offs[m] < endIndex})        \* searchsorted side='left'
-      alloc == Max(0, IF len = NoneV THEN L - off ELSE Min(len, L - off))
-      ctx == [off |-> off, length |-> length, endIndex |-> endIndex, offs |-> offs, first |-> first,
-              startSeg |-> startSeg, endSeg |-> endSeg]
-      r == SegLoop(segs, il, startSeg, Min(endSeg, Len(segs)), startSeg, ctx,
-                   [vr |-> 0, out |-> <<>>, err |-> FALSE, fetch |-> {},
-                    tags |-> {j \in startSeg..Min(endSeg, Len(segs)) : TRUE}])
-  IN IF r.err THEN [err |-> "IndexError", out |-> <<>>, alloc |-> alloc, fetch |-> r.fetch, tags |-> r.tags]
-     ELSE [err |-> "", out |-> r.out, alloc |-> alloc, fetch |-> r.fetch, tags |-> r.tags]
-
-\* what the caller sees: the receiver array has `alloc' slots; more values do not fit, fewer leave invented zeros
-Delivered(a) ==
-  IF a.err # "" THEN E(a.err)
-  ELSE IF Len(a.out) = a.alloc THEN R(a.out)
-  ELSE IF Len(a.out) < a.alloc THEN R(a.out \o [i \in 1..(a.alloc - Len(a.out)) |-> Bad])
-  ELSE E("BroadcastError")
-
-(* ------------------- algorithm model: TdmsChannel._read_slice ----------- *)
-AlgSlice(segs, il, start0, stop0, step0) ==
-  LET L == TotalLen(segs) IN
-  IF step0 = 0 THEN E("ValueError") ELSE
-  LET step == IF step0 = NoneV THEN 1 ELSE step0
-      s1 == IF start0 = NoneV THEN (IF step > 0 THEN 0 ELSE -1) ELSE start0
-      e1 == IF stop0 = NoneV THEN (IF step > 0 THEN L ELSE -1 - L) ELSE stop0
-      s2 == IF s1 < 0 THEN L + s1 ELSE s1
-      e2 == IF e1 < 0 THEN L + e1 ELSE e1
-  IN IF (~ZeroLenSlice /\ L = 0) \/ e2 = s2 THEN R(<<>>)
-     ELSE IF step > 0 /\ (e2 < s2 \/ s2 >= L \/ e2 < 0) THEN R(<<>>)
-     ELSE IF step < 0 /\ (e2 > s2 \/ e2 >= L \/ s2 < 0) THEN R(<<>>)
-     ELSE
-     LET s3 == IF s2 < 0 THEN 0 ELSE s2
-         s4 == IF s3 >= L THEN L - 1 ELSE s3
-         e3 == IF e2 > L THEN L ELSE e2
-         e4 == IF e3 < -1 THEN -1 ELSE e3
-     IN IF step > 0
-        THEN LET d == Delivered(AlgWindow(segs, il, s4, e4 - s4)) IN
-             IF d.err # "" THEN d ELSE R([i \in 1..((Len(d.vals) + step - 1) \div step) |-> d.vals[(i - 1) * step + 1]])
-        ELSE LET d == Delivered(AlgWindow(segs, il, e4 + 1, s4 - e4)) IN
-             IF d.err # "" THEN d
-             ELSE LET m == -step IN R([i \in 1..((Len(d.vals) + m - 1) \div m) |-> d.vals[Len(d.vals) - (i - 1) * m]])
-
-(* ------------- algorithm model: read_channel_chunk_for_index ------------ *)
-AlgIndex(segs, i0) ==
-  LET L == TotalLen(segs)
-      i == IF i0 < 0 THEN L + i0 ELSE i0
-  IN IF i < 0 \/ i >= L THEN [out |-> E("IndexError"), chunk |-> <<0, 0>>]
-     ELSE
-     LET offs == Offs(segs)
-         first == FirstSeg(segs)
-         si == first + Cardinality({m \in DOMAIN offs : offs[m] <= i})
-         s == segs[si]
-         segStart == IF si = first THEN 0 ELSE offs[si - first]
-         ci == (i - segStart) \div s.n
-         ch == ChunkTokens(segs, si, ci)
-         chunkOff == segStart + ci * s.n
-     IN [out |-> R(<<ch[i - chunkOff + 1]>>), chunk |-> <<si, ci>>]
-
-(* ------------------------------ footprint ------------------------------- *)
-\* chunks (segment, 0-based chunk) holding at least one token of [lo, hi)
-Overlapping(segs, lo, hi) ==
-  LET cs == Chunks(segs) IN
-  {<<cs[c].seg, cs[c].chunk>> : c \in {d \in DOMAIN cs : cs[d].count > 0 /\ cs[d].first < hi /\ cs[d].first + cs[d].count > lo}}
-
-\* a fetched chunk that holds no value of X (truncated final chunk) transfers no bytes
-NonEmptyChunk(segs, c) == LET s == segs[c[1]] IN c[2] < s.k /\ (c[2] = s.k - 1 => s.last > 0)
-
-AllowedWindow(segs, off, len) ==
-  LET L == TotalLen(segs) IN Overlapping(segs, off, IF len = NoneV THEN L ELSE Min(L, off + len))
 
 (* ------------------------------ behaviour ------------------------------- *)
 NoReq == [kind |-> "none"]
